@@ -616,3 +616,42 @@ def c11(tier, seed):
                            "expectations_checked", "targets_never_started", "targets_already_started"]
     c.required_points = ["SUSPEND_AFTER_BLOCKED", "RESUME_AFTER_PUSH"]
     return c
+
+
+@prop("C12")
+def c12(tier, seed):
+    c = Check("C12", tier, seed)
+    q = tier == "quick"
+    c.rule = ("life case = one scenario: 3 streams, 1-16 named units (ULTs, tasklets) each going through 1..N create/revive "
+              "epochs; an epoch draws a behaviour {return, yields, ABT_self_exit, ABT_thread_exit, run-until-cancelled, block "
+              "on an eventual then return} and a cancellation mode {none, before the first scheduling point (stream kept "
+              "busy), while running, while blocked}, is joined, checked (started exactly once / never, argument and pool of "
+              "this epoch, no code after exit, at most one slice observing the cancel request, state TERMINATED) and "
+              "finally freed; a sampler thread polls ABT_thread_get_state for the whole time (nothing after TERMINATED within "
+              "an epoch, BLOCKED only for units that block); forest case = C01 program (auto-free of unnamed units, LSan); "
+              "distinct = distinct (variant, delay, configuration signature)")
+    c.assumptions = ["the sampled state sequence is a subsequence of the real one, so only order violations that survive "
+                     "sub-sampling are checked", "resource release is decided by ASan/LSan and the C15 ledger"]
+    profiles = [hammer("TERMINATE_BEFORE_STORE", "GET_JOINER_BEFORE_REQ", "YIELD_SAVED", "SUSPEND_AFTER_BLOCKED",
+                       "PUSH_BEFORE_LOCK"), "uniform", "off", "heavy"]
+    for i, s in enumerate(seeds(seed, 6 if q else 48)):
+        args = ["--seed", s, "--mode", "life", "--scenarios", 10 if q else 60, "--max-cycles", 200 if q else 1000,
+                "--delay", profiles[i % 4], "--watchdog", 90 if q else 900]
+        if i % 3 == 2:
+            args += ["--squeeze", 2]
+        c.add(Run("h_units", "mon", args, weight=4, tag="life%d" % i))
+    for i, s in enumerate(seeds(seed, 2 if q else 6, salt=1)):
+        c.add(Run("h_units", "asan", ["--seed", s, "--mode", "life", "--scenarios", 5, "--max-cycles", 80,
+                                      "--delay", profiles[i % 4], "--watchdog", 90], weight=4, tag="asan%d" % i))
+    for i, s in enumerate(seeds(seed, 1 if q else 5, salt=2)):
+        c.add(Run("h_units", "tsan", ["--seed", s, "--mode", "life", "--scenarios", 2, "--max-cycles", 30,
+                                      "--delay", profiles[i % 4], "--watchdog", 90], weight=4, tag="tsan%d" % i))
+    c.add(Run("h_units", "asan", ["--seed", seed + 41, "--mode", "forest", "--programs", 8, "--max-units", 300,
+                                  "--watchdog", 90], weight=6, tag="forest-asan"))
+    c.nontrivial = lambda r: True
+    c.required_counters = ["epochs", "behaviour_return", "behaviour_yields", "behaviour_self_exit", "behaviour_thread_exit",
+                           "behaviour_until-cancelled", "behaviour_block-then-return", "cancel-before-start",
+                           "cancel-while-running", "cancel-while-blocked", "revives", "state_samples", "tasklet_epochs",
+                           "cancelled_units_never_started"]
+    c.required_points = ["SCHEDULE_CANCELLED"]
+    return c
